@@ -1,11 +1,15 @@
 """Source of truth for MANIFEST.json (run tools/mkmanifest.py after editing)."""
 
 ENGINES = [
-    dict(name="enumx", path="/verif/vlib/runner.py", serves_properties=["C03","C04","C10","C11","C14","C15","C17"],
+    dict(name="enumx", path="/verif/vlib/runner.py", serves_properties=["C01","C03","C04","C10","C11","C14","C15","C17"],
          kind_free_text="bounded-exhaustive enumeration of an explicit finite case space over the real implementation, 16-way fan-out, reference model oracle"),
 ]
 
 CHECKS = [
+    dict(id="C01", engine="enumx", level="exploration", design_ref="DESIGN.md §5 C01, Appendix A",
+         technique="bounded-exhaustive enumeration of small rigid worlds (probe pair x fillers x configurations) through the real catalog->tree->linkage->count path against an O(n^2) long-double reference",
+         text="Every case of the world/probe/filler/configuration product is created as real catalogs and measured with crosscorrelate and autocorrelate; every count cell (scale, bin, patch i, patch j) of dd/dr/rd/rr and every per-bin per-patch weight sum is compared with a naive pair loop. Because counts are sums over object pairs, a lost or mis-weighted pair has a two-object witness; fillers shape the patch radii that drive pruning.",
+         note="Bounds: 2-3 patches, <=16 objects per catalog, 6 (quick) / 16 (thorough) configurations. Cases with a pair within 1e-9 of a scale limit are skipped by rule (none occur with the chosen lattice). Sequential mode; schedules are C05/C06."),
     dict(id="C03", engine="enumx", level="exploration", design_ref="DESIGN.md §5 C03",
          technique="bounded-exhaustive enumeration of count arrays (fingerprint, single-cell, all 0/1) and sample matrices against an explicit-loop leave-one-out reference",
          text="Every container/shape/content of the stated alphabet is pushed through sample_patch_sum, CorrFunc.sample, RedshiftData.from_corrfuncs, HistData.from_catalog and covariance and compared with a leave-one-out recomputation in patch-index order; fingerprint contents make any permuted, lost or doubled patch visible.",
